@@ -15,6 +15,7 @@ package emit
 import (
 	"reflect"
 	"strconv"
+	"strings"
 
 	"github.com/koykov/inspector"
 )
@@ -128,31 +129,39 @@ func liveBit(arg any, path []string, got any) string {
 	return "0"
 }
 
+// getObs runs one Get / GetTo (a sentinel in the buffer) on the argument a and prints the observation of the ops below
+func getObs(ins inspector.Inspector, a any, to bool, path []string) string {
+	var got any
+	var err error
+	if to {
+		sent := &getSentinel{"sentinel"}
+		var buf any = sent
+		err = ins.GetTo(a, &buf, path...)
+		if err != nil {
+			return "e=" + ErrName(err)
+		}
+		if p, ok := buf.(*getSentinel); ok && p == sent {
+			return "e=nil;v=same;live=0"
+		}
+		got = buf
+	} else {
+		got, err = ins.Get(a, path...)
+		if err != nil {
+			return "e=" + ErrName(err)
+		}
+	}
+	return "e=nil;v=" + DumpDeref(reflect.ValueOf(got)) + ";live=" + liveBit(a, path, got)
+}
+
 func init() {
 	mk := func(to bool) opfn {
 		return func(ins inspector.Inspector, t reflect.Type, form string, args []string, value string) string {
 			a, _ := Arg(t, form, value)
 			path := Path(args[0])
-			var got any
-			var err error
-			if to {
-				sent := &getSentinel{"sentinel"}
-				var buf any = sent
-				err = ins.GetTo(a, &buf, path...)
-				if err != nil {
-					return "e=" + ErrName(err)
-				}
-				if p, ok := buf.(*getSentinel); ok && p == sent {
-					return "e=nil;v=same;live=0"
-				}
-				got = buf
-			} else {
-				got, err = ins.Get(a, path...)
-				if err != nil {
-					return "e=" + ErrName(err)
-				}
+			obs := getObs(ins, a, to, path)
+			if !strings.HasPrefix(obs, "e=nil;v=") || obs == "e=nil;v=same;live=0" {
+				return obs
 			}
-			obs := "e=nil;v=" + DumpDeref(reflect.ValueOf(got)) + ";live=" + liveBit(a, path, got)
 			if to && t.Kind() == reflect.Struct && form == "p" {
 				// a caller may reuse one buffer for consecutive GetTo calls: warm the buffer up with a reference to each
 				// top-level field, then repeat the call - the answer must be the same and the object untouched
